@@ -554,8 +554,18 @@ class ANF:
         if isinstance(t, ast.Subscript):
             base = self.eval(t.value, env, cond, loops)
             idx = self.index_term(t.slice, env, cond, loops)
-            self.ev("store", stmt, cond, loops, base=base, index=idx, value=v, aug=aug, target=t,
-                    aug_op=(self._aug[0] if aug and self._aug else None), aug_operand=(self._aug[1] if aug and self._aug else None))
+            if not aug and idx and idx[0] == FULL and isinstance(v, tuple) and v and v[0] == "call" and v[1] == ("x", "numpy.where") \
+                    and len(v[2]) == 3 and not v[3]:
+                # x[:, c] = np.where(m, a, b) is x[m, c] = a[m]; x[~m, c] = b[~m] (a, b arrays over the same rows, or scalars)
+                m_, a_, b_ = v[2]
+                nm_ = ("u", "~", m_)
+                for sel_, val_ in ((m_, a_), (nm_, b_)):
+                    val2 = val_ if (val_[0] == "c" or val_[0] == "k") else read(val_, (sel_,))
+                    self.ev("store", stmt, cond, loops, base=base, index=(sel_,) + tuple(idx[1:]), value=val2, aug=False, target=t,
+                            aug_op=None, aug_operand=None)
+            else:
+                self.ev("store", stmt, cond, loops, base=base, index=idx, value=v, aug=aug, target=t,
+                        aug_op=(self._aug[0] if aug and self._aug else None), aug_operand=(self._aug[1] if aug and self._aug else None))
             # functional update of local arrays so later reads see the scatter
             root = t.value
             if isinstance(root, ast.Name) and root.id in env:
@@ -1272,6 +1282,10 @@ def read(b, idx, _depth=0):
         # a container that was updated differently on the two arms of an `if`: read each arm
         ra, rb = read(b[2], idx, _depth + 1), read(b[3], idx, _depth + 1)
         return ra if key(ra) == key(rb) else ("ite", b[1], ra, rb)
+    if isinstance(b, tuple) and b and b[0] == "idx" and len(b[2]) == 2 and b[2][1][0] == "k" and len(idx) == 1 \
+            and b[2][0] != FULL and b[2][0][0] not in ("slice", "c") and idx[0][0] not in ("slice", "c"):
+        # rows of a gathered pit column: A[rows, COL][sel] is A[rows[sel], COL]
+        return ("idx", b[1], (read(b[2][0], idx, _depth + 1), b[2][1]))
     return ("idx", b, idx)
 
 
